@@ -164,7 +164,10 @@ def install():
     M.wrap(Distribution, "fit", pre=_pre_fit, post=_post_fit, tag="c12")
 
 
-def _fit(fam, start_params, data, fixed=None):
+FORMS = ["default", "positional-mle", "keyword-mle-weights-none", "mle-with-string-weights", "mle-with-array-weights", "upper-case-MLE"]
+
+
+def _fit(fam, start_params, data, fixed=None, form=0):
     cls = S.classes()[fam]
     kw = dict(start_params or {})
     for k, v in (fixed or {}).items():
@@ -175,7 +178,20 @@ def _fit(fam, start_params, data, fixed=None):
         kw["f_loc"] = 0.0
     d = cls(**kw)
     _LAST.clear()
-    d.fit(data)  # default method: mle
+    # every documented way to ask for maximum likelihood ("weights: ... Ignored otherwise")
+    f = FORMS[form % len(FORMS)]
+    if f == "default":
+        d.fit(data)
+    elif f == "positional-mle":
+        d.fit(data, "mle")
+    elif f == "keyword-mle-weights-none":
+        d.fit(data, method="mle", weights=None)
+    elif f == "mle-with-string-weights":
+        d.fit(data, "mle", ["linear", "quadratic", "cubic"][form % 3])
+    elif f == "mle-with-array-weights":
+        d.fit(data, method="mle", weights=np.linspace(0.5, 2.0, len(data)))
+    else:
+        d.fit(data, "MLE")
     return d, dict(_LAST)
 
 
@@ -227,7 +243,9 @@ def run_case(case, ctx):
     ctx.cls("n_fixed", len(fixed_names))
     if fixed_names:
         info["fixed"] = fixed1
-    d1, obs1 = _fit(fam, start, x, fixed1)
+    form = int(case["sub"]) % 7  # (7 and 6 are coprime: forms and the string weight rotate independently)
+    ctx.cls("call-form", FORMS[form % len(FORMS)])
+    d1, obs1 = _fit(fam, start, x, fixed1, form)
     if obs1.get("after") is None:
         ctx.check("c12.fit-observed-state", False, f"{fam}: MLE fit was not observed by the monitor or raised", exc=repr(obs1.get("exc")), **info)
         return
@@ -257,7 +275,7 @@ def run_case(case, ctx):
         return
     x2 = cfac * x
     start2 = None if start is None else scale_params(fam, start, cfac)
-    d2, obs2 = _fit(fam, start2, x2, {k: scale_params(fam, gen, cfac)[k] for k in fixed_names})
+    d2, obs2 = _fit(fam, start2, x2, {k: scale_params(fam, gen, cfac)[k] for k in fixed_names}, form + 1)
     if obs2.get("after") is None:
         ctx.check("c12.fit-observed-state", False, f"{fam}: MLE fit of scaled data raised", exc=repr(obs2.get("exc")), **info)
         return
